@@ -3,6 +3,7 @@
 R14.1 compute precedes save, nothing saved on compute's exceptional exit;  R14.2 handler discipline around load_value;
 R14.3 key verification in JsonCache.load_value;  R14.4 file name uses the whole digest, sub-caches are separate;
 R14.5 `force` is a conjunct of the load guard and `get` never computes.
+R14.11 save_value refuses a value before it opens the file for writing;  R14.10 (from C15 R15.8) presence decided under the lock.
 """
 from __future__ import annotations
 
